@@ -133,7 +133,10 @@ def run(chk):
                     chk.fail("log_likelihood / acc_stats on a %s input raises %r" % (lname, e), {"layout": lname, "x": hexlist(X), "shape": [C, D]})
                     continue
                 chk.count(1, key=("layout", lname))
-                if not (np.array_equal(ll_l, np.asarray(m.log_likelihood(X))) and np.allclose(np.asarray(st_l.sum_pxx), np.asarray(m.acc_stats(X).sum_pxx), rtol=1e-12, atol=0)):
+                # (equal up to the rounding of NumPy's summation order, which may depend on the memory layout)
+                ll_c = np.asarray(m.log_likelihood(X))
+                sxx_c = np.asarray(m.acc_stats(X).sum_pxx)
+                if not (np.allclose(ll_l, ll_c, rtol=1e-11, atol=1e-11) and np.allclose(np.asarray(st_l.sum_pxx), sxx_c, rtol=1e-10, atol=1e-12 * (1 + float(np.abs(sxx_c).max())))):
                     chk.fail("log_likelihood / acc_stats differ for the same values given as %s" % lname, {"layout": lname, "x": hexlist(X), "shape": [C, D]})
         if earlier is not None:
             m_e, X_e, ll_e = earlier
@@ -178,6 +181,27 @@ def run(chk):
                 if not np.allclose(dl, ll, rtol=1e-12, atol=0, equal_nan=False):
                     chk.fail("Dask row-chunking %s changes log_likelihood" % (parts,),
                              {"entry": "log_likelihood dask", "chunks": list(parts), "x": hexlist(X)})
+    # ---- machines as the package's own trainers leave them (ML / MAP with weight and variance adaptation, NumPy input, also a public
+    #      M-step on hand-held statistics): the reported log-likelihood is the formula under the machine's VISIBLE parameters
+    from .. import gmmtrain as gt
+    for j in range(12 if chk.tier == "quick" else 200):
+        w_, mu_, var_, s_, X_ = gt.gen_training(r, C=r.choice([2, 3]), D=r.choice([1, 2]), N=r.choice([9, 14]))
+        trainer = ("ml", "map", "map-array")[j % 3]
+        cfg = dict(w=w_, mu=mu_, var=var_, thr=1e-6 * s_ ** 2, sw=(True, bool(j % 2), True), eps=float(np.finfo(float).eps), cap=r.choice([1, 2]), cthr=None)
+        if trainer != "ml":
+            al_ = 0.5 if trainer == "map" else np.linspace(0.2, 0.8, len(w_))
+            cfg = dict(cfg, w=None, mu=None, var=None, map=dict(relevance=4.0 if trainer == "map" else None, alpha=al_, prior=(w_, mu_ + 0.5 * s_, var_, 1e-6 * s_ ** 2)))
+        mt, _pr = gt.build_machine(cfg)
+        if gt.run_fit(mt, X_) is None:
+            continue
+        got = np.asarray(mt.log_likelihood(X_), dtype=float)
+        wv, muv, vv = np.asarray(mt.weights, dtype=float), np.asarray(mt.means, dtype=float), np.asarray(mt.variances, dtype=float)
+        want = np.array([ref_ll(wv, muv, vv, x)[0] for x in X_])
+        chk.count(1, key=("after-training", trainer, bool(j % 2)))
+        if not np.allclose(got, want, rtol=1e-10, atol=1e-10):
+            chk.fail("after %s training (means%s and weights updated, NumPy input) log_likelihood is not log sum_c w_c N(x; mu_c, var_c) of the machine's visible parameters: largest difference %.3g (visible weights sum to %.6g)"
+                     % (trainer.upper(), ", variances" if j % 2 else "", float(np.abs(got - want).max()), float(wv.sum())),
+                     {"entry": "fit then log_likelihood", "trainer": trainer, "w": hexlist(wv), "mu": hexlist(muv), "var": hexlist(vv), "x": hexlist(X_)})
     bad, info = cq.run_cases("C01", IMPORTS, "ll_case", "ll_check", terms)
     chk.correspondence("GMMMachine.log_likelihood/log_weighted_likelihood ~ MF.log_likelihood/MF.lwl", len(terms), bad, info)
     if bad:
